@@ -63,7 +63,7 @@ attribute [local irreducible] sendTestReqR
 
 theorem disconnectR_ok (env : Env) (d : Nat) (l : Option String) : ROk i (disconnectR env d l) := by
   unfold disconnectR
-  rok_tac [stateSetR_ok, sendMsgR_ok env (isNew_logoutMsg _)]
+  rok_tac [stateSetR_ok, ROk.swallow () (sendMsgR_ok env (isNew_logoutMsg _))]
 
 attribute [local irreducible] disconnectR
 
